@@ -162,7 +162,11 @@ def _grid():
                    (-8.0, 8.0), (-12.0, 0.3), (1.1503, 1.8627), (0.0, 1e-3)):
         add("DistNormalTrunc", mu=0.0, sigma=1.0, lo=lo, hi=hi)
     for mu, sg, lo, hi in ((10.0, 2.0, 9.0, 15.0), (-5.0, 0.05, -5.1, -4.99), (2.0, 0.2, 2.5, INF),
-                           (100.0, 50.0, 0.0, INF), (1.0, 1.0, 0.0, INF), (-1.0, 3.0, -INF, 0.0)):
+                           (100.0, 50.0, 0.0, INF), (1.0, 1.0, 0.0, INF), (-1.0, 3.0, -INF, 0.0),
+                           # bounds that are large in magnitude compared with sigma (a tolerance relative to the
+                           # bound instead of to sigma would swallow the whole window)
+                           (5e4, 0.05, 49999.9, 50000.1), (1.7e9, 30.0, 1.7e9 - 90.0, 1.7e9 + 90.0),
+                           (-4e6, 2.0, -4e6 - 1.0, INF)):
         add("DistNormalTrunc", mu=mu, sigma=sg, lo=lo, hi=hi)
     # triangular: modes at both bounds and interior
     for lo, mo, hi in ((0.0, 0.0, 1.0), (0.0, 1.0, 1.0), (0.0, 0.5, 1.0), (1, 4, 9), (-3.0, -3.0, 5.0),
@@ -189,6 +193,8 @@ def _grid():
     for s, p in ((1, 0.5), (1, 0.01), (2, 0.99), (5, 0.3), (60, 0.5), (60, 0.05), (13, 0.9)):
         add("DistNegBinomial", s=s, p=p)
     for r in (0.05, 0.5, 1.0, 1, 4.2, 25, 60.0, 87.5, 100.0, 100):
+        add("DistPoisson", rate=r)
+    for r in (300.0, 500.0, 650):        # large rates that exp(-rate) still represents
         add("DistPoisson", rate=r)
     add("DistPoisson", rate=1000.0)      # known defect K-C15-1 (rate > 700)
     return g
